@@ -165,6 +165,9 @@ def check(ck: Checker) -> None:
     from . import round7 as _r7
 
     _r7.ensure_loaded_by_kind(ck, "C08.once")
+    from . import round9 as _r9
+
+    _r9.presence_tested_on_raw_meta(ck, "C08.classify")
 
 
 def _roots(ck: Checker, fn: Func, g) -> None:
